@@ -89,7 +89,7 @@ def run(ctx):
         ctx.case(("ed", inner, nd, dtwmon.flat(l1), dtwmon.flat(l2)), min(len(l1), len(l2)) >= 2 and (ref > 0 or len(l1) != len(l2)))
         return ref
 
-    N = 700 if ctx.quick else 15000
+    N = ctx.scale(9000, 100000)
     for _ in range(N):
         r, c = rng.randint(1, 12), rng.randint(1, 12)
         if rng.random() < 0.35:
